@@ -273,6 +273,12 @@ func cliProject(res *Result, sc *cliScenario, r *cliRun, prop string) (string, *
 		// a record the client cannot decode stops it, and the stop may overtake the delivery of a reply
 		// that was received before it (C05: "the peer's reply if one was delivered first"): when the
 		// client stopped during the run, only replies whose delivery had started by then are firm
+		// (only a record written by a `raw` op can be undecodable; when the script has none, nothing
+		// may stop the client and every expectation is firm)
+		peerBreaks := false
+		for _, op := range sc.Ops {
+			peerBreaks = peerBreaks || op.Kind == "raw"
+		}
 		firstStop := len(r.Log)
 		for i, e := range r.Log {
 			if strings.HasPrefix(e, "onstop") {
@@ -297,7 +303,7 @@ func cliProject(res *Result, sc *cliScenario, r *cliRun, prop string) (string, *
 			if mentions[r.ids[tg]] != 1 {
 				continue
 			}
-			if firstStop < len(r.Log) && deliveryStarted(r.ids[tg]) > firstStop {
+			if peerBreaks && firstStop < len(r.Log) && deliveryStarted(r.ids[tg]) > firstStop {
 				continue
 			}
 			opTag := strings.SplitN(tg, ".", 2)[0]
